@@ -90,6 +90,8 @@ type exec struct {
 	// C12: count(P) / reverse(P) compiled once per run and expression
 	longCount, longRev map[int]*xpath.Expr
 	longUses           map[int]int
+	// C16: expressions of pernode steps, compiled once per run
+	perNode map[string]*xpath.Expr
 }
 
 type soloKey struct {
@@ -526,6 +528,28 @@ func (x *exec) histC04() {
 				continue
 			}
 			x.probe(i, ei, d, st.C)
+		case "str":
+			// the other things a caller does with a compiled expression between two
+			// evaluations: print it; run the same text through the deprecated
+			// package-level helpers. Events of the history; the package-level
+			// Select is compared with the fresh-compile reference like any other use.
+			if ex == nil {
+				continue
+			}
+			e := x.begin(MinBudget, 0)
+			func() {
+				defer func() { recover() }()
+				_ = ex.String()
+			}()
+			x.end(e)
+			if st.N%2 == 1 && !useNS {
+				want := x.solo(text, d, st.C, "pkgselect", 0)
+				e := x.begin(budgetFor(want), 0)
+				got := pkgSelect(text, x.nav(d, st.C))
+				x.end(e)
+				x.compareOutcome(i, "Select(package)", text, got, want, false)
+			}
+			x.res.Stats.Faults["other-api-use"]++
 		case "swapcache":
 			x.cache = newCacheModel(x, st.N)
 			x.cache.install()
